@@ -30,6 +30,19 @@ for d in seeded/*/; do
   verdict=MISSED
   [ $rc -eq 1 ] && verdict=CAUGHT
   [ $rc -eq 3 ] && verdict=HARNESS-ERROR
+  if [ "$verdict" = MISSED ]; then
+    # a change that shows only outside the bounds of its own property's check may be inside those of a neighbouring property
+    # (meta.json "also_check": ["Cxx", ...], added by hand with the reason in "also_check_reason")
+    for other in $(python3 -c "import json;print(' '.join(json.load(open('$d/meta.json')).get('also_check',[])))"); do
+      res2=$(VERIF_REPO="$WT" timeout 3000 ./vcheck "$other" --tier "$tier" --no-evidence 2>&1); rc2=$?
+      if [ $rc2 -eq 1 ]; then
+        verdict="MISSED-by-$prop/CAUGHT-by-$other"
+        nviol=$(echo "$res2" | grep -c "^VIOLATION")
+        first=$(echo "$res2" | grep "violated:" | head -1 | cut -c1-160 | tr '\t' ' ')
+        break
+      fi
+    done
+  fi
   echo -e "$name\t$prop\t$verdict\tdemo clean=$clean_rc mutated=$demo_rc\t$((e-s))s\t$nviol\t$first" >> "$tmp"
   echo "$name $prop $verdict (demo clean=$clean_rc mutated=$demo_rc, check rc=$rc, $((e-s))s) $first"
   git -C /repo worktree remove --force "$WT"
